@@ -37,6 +37,20 @@ import (
 // C16Kinds are the upstream kinds of the C16 workload.
 var C16Kinds = []string{"tcp", "tcp+tls", "ws", "udp"}
 
+// C16Spellings: the schemes an upstream address of a kind may be written with (the first one is the default,
+// used when no spelling is asked for). "wss" is a web-socket endpoint behind a TLS listener (https).
+var C16Spellings = map[string][]string{"tcp": {"tcp"}, "tcp+tls": {"tcp+tls"}, "ws": {"http", "ws"}, "wss": {"https", "wss"}, "udp": {"udp", "udp4"}}
+
+func c16Scheme(kind, spelling string) string {
+	if spelling != "" {
+		return spelling
+	}
+	if l := C16Spellings[kind]; len(l) > 0 {
+		return l[0]
+	}
+	return kind
+}
+
 // C16Secret is the pre-shared key of the "udp+secret" kind (a KCP endpoint whose datagrams are AES-encrypted).
 const C16Secret = "c16-shared-secret"
 
@@ -114,6 +128,8 @@ type C16Endpoint struct {
 	// certificate for both spellings, "localhost" = by name with a certificate for the name only, "ip" = 127.0.0.1
 	// with a certificate for the addresses only.
 	Host string
+	// Scheme: how the upstream URL spells the scheme ("" = the default spelling of the kind, see C16Spellings)
+	Scheme string
 }
 
 // C16SpellHost rewrites the loopback address of a host:port for the chosen spelling.
@@ -139,7 +155,7 @@ var c16NextHost string
 // NewC16Endpoint starts target, server and relay. withCert: the server has a certificate (it offers
 // StartTLS; tcp+tls always has one).
 func NewC16Endpoint(kind, name string, withCert bool) (*C16Endpoint, error) {
-	e := &C16Endpoint{Kind: kind, Name: name, WithCert: withCert || kind == "tcp+tls", intr: make(chan os.Signal, 1), Host: c16NextHost}
+	e := &C16Endpoint{Kind: kind, Name: name, WithCert: withCert || kind == "tcp+tls" || kind == "wss", intr: make(chan os.Signal, 1), Host: c16NextHost}
 	t, err := NewTarget(name, "tcp", "", true)
 	if err != nil {
 		return nil, err
@@ -195,9 +211,9 @@ func (e *C16Endpoint) StartServer() error {
 		s := server.NewSocketServer()
 		s.Address, s.ServerConfig = addr.MustParseAddress(e.Kind+"://"+e.SrvAddr), cfg
 		srv = s
-	case "ws":
+	case "ws", "wss":
 		s := server.NewHttpServer()
-		s.Address, s.ServerConfig = addr.MustParseAddress("http://"+e.SrvAddr), cfg
+		s.Address, s.ServerConfig = addr.MustParseAddress(C16Spellings[e.Kind][0]+"://"+e.SrvAddr), cfg
 		s.Endpoints = server.WebsocketEndpointList{{Endpoint: "/ws/all"}}
 		srv = s
 	case "dns":
@@ -291,12 +307,16 @@ func (e *C16Endpoint) Physical() int64 {
 // URL is the upstream address a client uses for this endpoint (the relay's address).
 func (e *C16Endpoint) URL() string {
 	switch e.Kind {
-	case "ws":
-		return "http://" + C16SpellHost(e.Relay.Addr, e.Host) + "/ws/all"
+	case "ws", "wss":
+		return c16Scheme(e.Kind, e.Scheme) + "://" + C16SpellHost(e.Relay.Addr, e.Host) + "/ws/all"
 	case "dns":
 		return "dns://" + e.Domain + "?direct=false&dns=" + e.UDPRelay.Addr
 	case "udp", "udp+secret":
-		return c16UDPURL(e.Kind, C16SpellHost(e.UDPRelay.Addr, e.Host))
+		u := c16UDPURL(e.Kind, C16SpellHost(e.UDPRelay.Addr, e.Host))
+		if e.Scheme != "" {
+			u = e.Scheme + strings.TrimPrefix(u, "udp")
+		}
+		return u
 	}
 	return e.Kind + "://" + C16SpellHost(e.Relay.Addr, e.Host)
 }
@@ -316,6 +336,11 @@ func (e *C16Endpoint) Close() {
 
 // C16Upstream builds the client's upstream object for an address.
 func C16Upstream(url string) upstream.Upstream {
+	// the way the command line and the configuration file turn an address into an upstream object
+	var l upstream.Upstreams
+	if err := l.UnmarshalFlag(url); err == nil && len(l.Data) == 1 {
+		return l.Data[0]
+	}
 	a := addr.MustParseAddress(url)
 	switch {
 	case strings.HasPrefix(url, "http"):
@@ -339,11 +364,12 @@ func C16Upstream(url string) upstream.Upstream {
 //	             handshake where there is one) and then never answers the upgrade request
 //	silent-in-starttls answers "200" advertising StartTLS, answers the upgrade request with "101" and then never
 //	             says a word of the TLS handshake the client starts
-//	hs-400       reads the request and answers "400 Bad Request" (tcp+tls: inside TLS), then closes
+//	hs-400       reads the request and answers "400 Bad Request" (tcp+tls, wss: inside TLS), then closes
 //	hs-garbage   answers bytes that are no response at all, then closes
 //	hs-close     closes at once
 type C16Scripted struct {
 	Host         string // spelling of the host in the URL ("localhost" or "" = 127.0.0.1)
+	Scheme       string // spelling of the scheme in the URL ("" = the default spelling of the kind)
 	Kind, Manner string
 	Addr         string
 	accepts      int64
@@ -362,10 +388,10 @@ func (s *C16Scripted) Accepts() int64 { return atomic.LoadInt64(&s.accepts) }
 
 func (s *C16Scripted) URL() string {
 	switch s.Kind {
-	case "ws":
-		return "http://" + C16SpellHost(s.Addr, s.Host) + "/ws/all"
+	case "ws", "wss":
+		return c16Scheme(s.Kind, s.Scheme) + "://" + C16SpellHost(s.Addr, s.Host) + "/ws/all"
 	case "udp":
-		return "udp://" + C16SpellHost(s.Addr, s.Host)
+		return c16Scheme(s.Kind, s.Scheme) + "://" + C16SpellHost(s.Addr, s.Host)
 	}
 	return s.Kind + "://" + C16SpellHost(s.Addr, s.Host)
 }
@@ -596,7 +622,8 @@ func NewC16Scripted(kind, manner string) (*C16Scripted, error) {
 
 func (s *C16Scripted) serveTCP(c net.Conn) {
 	inner := c
-	needTLS := s.Kind == "tcp+tls" && (s.Manner == "silent-inner" || s.Manner == "hs-400" || s.Manner == "silent-after-200")
+	needTLS := (s.Kind == "tcp+tls" && (s.Manner == "silent-inner" || s.Manner == "hs-400" || s.Manner == "silent-after-200")) ||
+		(s.Kind == "wss" && (s.Manner == "silent-inner" || s.Manner == "hs-400")) // wss: the web-socket upgrade request inside TLS is refused / never answered
 	if needTLS {
 		pk := GetPKI()
 		crt, err := tls.X509KeyPair([]byte(pk.Good.Cert), []byte(pk.Good.Key))
